@@ -91,6 +91,15 @@ def inner(a, b=2):
 @dag
 def mid(t):
     return inner(t)
+@xn
+def k():
+    return 5
+@dag
+def noargs():
+    return prod(k())
+@dag
+def alldefault(a=1, b=2):
+    return prod(a, b)
 '''
 NESTED_BODIES = {
     "arg": "    d = dbg(x)\n    return inner(d)",
@@ -99,6 +108,10 @@ NESTED_BODIES = {
     "flag": "    d = dbg(x)\n    return inner(x, twz_active=d)",
     "two_levels": "    d = dbg(x)\n    return mid(d)",
     "debug_chain": "    d = dbg(x)\n    e = dbg(d)\n    return inner(e[1])",
+    # the only link between the debug node and the production nodes is the flag of an inner DAG called WITHOUT positional arguments
+    "flag_noargs": "    d = dbg(x)\n    return noargs(twz_active=d)",
+    "flag_noargs_indexed": "    d = dbg(x)\n    return noargs(twz_active=d[0])",
+    "flag_alldefault": "    d = dbg(x)\n    return alldefault(twz_active=d)",
 }
 
 
